@@ -311,5 +311,5 @@ func indexFolderPaths(c *eng.Ctx, rule string) {
 			}
 		}
 	}
-	c.Expect(rule, 21)
+	c.Expect(rule, 19)
 }
